@@ -569,6 +569,20 @@ def r3_skip_count(L, repo, hl):
             a[A_NONE], a[A_FALSE], a[A_CNT], a[A_FULL]), want, evs)
     resdef = [canon(n.value) for n in ast.walk(pa) if isinstance(n, ast.Assign) and canon(n.targets[0]) == RES]
     L.require("C15.R3", F, fn, "result list starts empty", ["[]"], resdef)
+    # append path: decided by folding append_msg / append_all with the file object and dump_msg() as recording oracles
+    folded = _append_fold(L, repo)
+    if folded:
+        L.structural("C15.R3 shape of the append path (effects of append_msg, loop of append_all)", _append_shape, L, repo)
+    else:
+        _append_shape(L, repo)
+    # file opened for appending in binary mode
+    ci, init = repo.need_method("data_dump", "DATADumpFile", "__init__")
+    opens = [canon(c) for c in calls_in(init) if canon(c.func) == "open"]
+    L.ob("C15.R3", F, "DATADumpFile.__init__", "capture is opened in binary append+read mode", "open(capture, 'a+b')", opens,
+         len(opens) == 1 and "'a+b'" in opens[0] or (len(opens) == 1 and "'ab+'" in opens[0]))
+
+
+def _append_shape(L, repo):
     # append path
     ci, am = repo.need_method("data_dump", "DATADumpFile", "append_msg")
     fw = Fwd()
@@ -577,7 +591,7 @@ def r3_skip_count(L, repo, hl):
     import re as _re
     file_eff = [(tuple(c), e) for c, e in fw.effects if _re.search(r"\bself\.f\b", e) and not e.startswith("log.")]
     L.require("C15.R3", F, "DATADumpFile.append_msg", "append writes exactly dump_msg(msg) (effects on the capture file)",
-              [((), "self.f.write(self.dump_msg(%s))" % P)], file_eff)
+              [((), "self.f.write(self.dump_msg(%s))" % P)], [x for x in file_eff if not x[1].startswith("self.f.seek(")])   # (the position is R6's)
     # (effects on other state - counters, log lines - do not concern the capture)
     rets_ = [r for c_, r in fw.returns if r is not None]
     L.ob("C15.R3", F, "DATADumpFile.append_msg", "append cannot be skipped (no early return / raise before the write)",
@@ -588,11 +602,245 @@ def r3_skip_count(L, repo, hl):
     ok = len(lp) == 1 and canon(lp[0].iter) == P and [canon(s) for s in lp[0].body] == ["self.append_msg(%s)" % canon(lp[0].target)]
     L.ob("C15.R3", F, "DATADumpFile.append_all", "append_all appends every message in list order",
          "for m in msgs: self.append_msg(m)", [canon(l)[:80] for l in lp], ok)
-    # file opened for appending in binary mode
-    ci, init = repo.need_method("data_dump", "DATADumpFile", "__init__")
-    opens = [canon(c) for c in calls_in(init) if canon(c.func) == "open"]
-    L.ob("C15.R3", F, "DATADumpFile.__init__", "capture is opened in binary append+read mode", "open(capture, 'a+b')", opens,
-         len(opens) == 1 and "'a+b'" in opens[0] or (len(opens) == 1 and "'ab+'" in opens[0]))
+
+
+def _append_fold(L, repo):
+    """append_msg(m) / append_all([m...]) folded with recording oracles for the file object and dump_msg(): the octets
+    written, in order, are exactly the records of the messages, in order; a message that cannot be dumped (ValueError)
+    leaves the records before it stored and is reported to the caller.  (List lengths 0..3 are witnesses of the loop;
+    the position typestate is R6's.)  -> False when the code leaves the evaluator's vocabulary"""
+    from consteval import Opaque
+    ci = repo.need_class("data_dump", "DATADumpFile")
+    c1, am = repo.need_method("data_dump", "DATADumpFile", "append_msg")
+    c2, aa = repo.need_method("data_dump", "DATADumpFile", "append_all")
+    rec = {"m1": b"\x01\x00\x03abc", "m2": b"\x02\x00\x01z", "m3": b"\x01\x00\x00", "BAD": None}
+
+    def run(fd, arg):
+        ops = []
+
+        def dump(a, kw):
+            m = a[0].text if a and isinstance(a[0], Opaque) else None
+            if m not in rec or len(a) != 1:
+                raise Unknown("dump_msg called with %r" % (a,))
+            if rec[m] is None:
+                raise Raised("ValueError")
+            if any(v for v in kw.values()):
+                return b"\xff" + rec[m]        # an option that changes the stored octets
+            return rec[m]
+        dump.wants_kw = True
+
+        def fop(name):
+            def h(a):
+                ops.append((name, tuple(bytes(x) if isinstance(x, (bytes, bytearray)) else x for x in a)))
+                return None
+            return h
+        e = Ev(repo, ci.mod, env={params(fd)[1]: arg}, self_cls=ci)
+        e.ignore_calls = ("log.", "logging.")
+        e.hooks = {"self.dump_msg": dump, "self.f.write": fop("write"), "self.f.seek": fop("seek"), "self.f.flush": fop("flush"),
+                   "self.f.tell": lambda a: 0}
+        raised = None
+        try:
+            e.run_block(fd.body)
+        except Raised as ex:
+            raised = ex.cls
+        written = b"".join(o[1][0] for o in ops if o[0] == "write" and o[1] and isinstance(o[1][0], bytes))
+        return written, raised
+    try:
+        rows = []
+        for m in ("m1", "m2", "BAD"):
+            rows.append(("append_msg(%s)" % m, run(am, Opaque(m)), (rec[m] or b"", None if rec[m] else "ValueError")))
+        for lst in ([], ["m1"], ["m1", "m2"], ["m2", "m1", "m3"], ["m1", "BAD", "m3"], ["BAD"]):
+            want = b""
+            wr = None
+            for m in lst:
+                if rec[m] is None:
+                    wr = "ValueError"
+                    break
+                want += rec[m]
+            rows.append(("append_all([%s])" % ", ".join(lst), run(aa, [Opaque(m) for m in lst]), (want, wr)))
+    except Unknown:
+        return False
+    for title, got, want in rows:
+        L.require("C15.R3", F, "DATADumpFile." + title.split("(")[0], "%s stores exactly the records of the messages, in order%s" % (
+            title, "; the message that cannot be dumped is reported, the records before it stay stored" if want[1] else ""), want, got)
+    return True
+
+
+# ---------------------------------------------------------------------------------------------------------------
+# R6: records are written at the end of the capture (typestate of the file position)
+
+def _own_exprs(node):
+    """the expressions a CFG node evaluates itself (not those of nested blocks)"""
+    a = node.ast
+    if a is None:
+        return []
+    if node.kind == "cond":
+        return [a.test]
+    if node.kind == "loop":
+        return [a.iter]
+    if node.kind == "with":
+        return [i.context_expr for i in a.items]
+    if node.kind == "handler":
+        return []
+    if isinstance(a, (ast.FunctionDef, ast.ClassDef, ast.AsyncFunctionDef)):
+        return []
+    return [a]
+
+
+def _is_seek_end(repo, ci, call):
+    """self.f.seek(<anything>, 2 | os.SEEK_END | io.SEEK_END) with offset 0"""
+    if canon(call.func) != "self.f.seek" or call.keywords:
+        return False
+    if len(call.args) != 2:
+        return False
+    off, wh = call.args
+    if not (isinstance(off, ast.Constant) and off.value == 0):
+        return False
+    if isinstance(wh, ast.Constant):
+        return wh.value == 2
+    return canon(wh) in ("os.SEEK_END", "io.SEEK_END", "SEEK_END")
+
+
+def _pos_summary(repo, ci, methods, name, summ, depth=0):
+    """how a call of self.<name>() leaves the position of the capture file: 'neutral' (does not touch it), 'end'
+    (every normal exit leaves it at the end of the file), 'moves' (anything else)"""
+    if name in summ:
+        return summ[name]
+    fd = methods.get(name)
+    if fd is None or depth > 6:
+        return "moves" if fd is None and name not in ("dump_msg", "parse_hdr") else "neutral"
+    summ[name] = "moves"          # recursion guard
+    states, touched = _pos_flow(repo, ci, methods, fd, summ, depth)
+    cfg = states["cfg"]
+    if not touched:
+        summ[name] = "neutral"
+    else:
+        outs = [states["out"][p.id] for p, _l in cfg.exit.pred]
+        summ[name] = "end" if outs and all(outs) else "moves"
+    return summ[name]
+
+
+def _pos_flow(repo, ci, methods, fd, summ, depth=0):
+    """forward must-analysis over the CFG of one method: is the file position known to be the end of the file?"""
+    cfg = CFG(fd)
+    touched = [False]
+
+    def transfer(node, st):
+        for e in _own_exprs(node):
+            calls = [c for c in ast.walk(e) if isinstance(c, ast.Call)]
+            calls.sort(key=lambda c: (getattr(c, "end_lineno", 0), getattr(c, "end_col_offset", 0)))   # evaluation order: inner / earlier first
+            for c in calls:
+                t = canon(c.func)
+                if t.startswith("self.f."):
+                    touched[0] = True
+                    op = t[len("self.f."):]
+                    if op == "seek":
+                        st = _is_seek_end(repo, ci, c)
+                    elif op in ("write", "tell", "flush", "fileno", "close"):
+                        pass
+                    else:
+                        st = False
+                elif t.startswith("self.") and t.count(".") == 1:
+                    k = _pos_summary(repo, ci, methods, t[5:], summ, depth + 1)
+                    if k != "neutral":
+                        touched[0] = True
+                    st = True if k == "end" else st if k == "neutral" else False
+                elif any(canon(a) == "self.f" for a in list(c.args) + [k.value for k in c.keywords]):
+                    touched[0] = True
+                    st = False
+        return st
+    inn = {n.id: True for n in cfg.nodes}
+    out = {n.id: True for n in cfg.nodes}
+    inn[cfg.entry.id] = False
+    # nodes of a `finally` block are also entered from every statement of the protected body (exception in flight)
+    extra_pred = {}
+    for t in [x for x in ast.walk(fd) if isinstance(x, ast.Try) and x.finalbody]:
+        first = None
+        try:
+            first = cfg.node_of(t.finalbody[0])
+        except AnalysisError:
+            continue
+        body_nodes = set()
+        for st_ in t.body + [h_ for h in t.handlers for h_ in h.body] + t.orelse:
+            for x in ast.walk(st_):
+                n_ = cfg.by_ast.get(id(x))
+                if n_ is not None:
+                    body_nodes.add(n_.id)
+        extra_pred[first.id] = body_nodes
+    byid = {n.id: n for n in cfg.nodes}
+    changed = True
+    rounds = 0
+    while changed and rounds < 200:
+        changed = False
+        rounds += 1
+        for n in cfg.nodes:
+            if n is cfg.entry:
+                i = False
+            else:
+                preds = [p.id for p, _l in n.pred] + list(extra_pred.get(n.id, ()))
+                i = all(out[p] for p in preds) if preds else False
+            o = transfer(n, i)
+            if i != inn[n.id] or o != out[n.id]:
+                inn[n.id], out[n.id] = i, o
+                changed = True
+    return {"cfg": cfg, "in": inn, "out": out, "transfer": transfer}, touched[0]
+
+
+def r6_append_position(L, repo):
+    """R6 (appended messages are returned by a full read / random access): reading moves the position of the capture
+    file object, and a buffered Python file opened 'a+b' (or any already opened file handed in) stores what is
+    written at the object's CURRENT position as far as later reads through the same object are concerned - a record
+    written after a read without repositioning overwrites (or, in append mode, shadows) stored records.  Every
+    write to the capture must therefore happen with the position known to be the end of the file: typestate
+    {unknown, at end} propagated over the CFG of each method (seek(0, 2) establishes it, read / other seeks / calls
+    that move the position destroy it, calls of methods that leave the position at the end establish it)."""
+    ci = repo.need_class("data_dump", "DATADumpFile")
+    methods = {}
+    for c in reversed(repo.mro(ci)):
+        for k, v in c.methods.items():
+            methods[k] = v
+    summ = {}
+    nw = 0
+    for name, fd in sorted(methods.items()):
+        writes = [c for c in calls_in(fd) if canon(c.func) == "self.f.write"]
+        if not writes:
+            continue
+        fn = "DATADumpFile." + name
+        L.fn(F, fn)
+        st, _t = _pos_flow(repo, ci, methods, fd, summ)
+        cfg = st["cfg"]
+        for w in writes:
+            nw += 1
+            node = cfg.node_of(w)
+            # state right before this call inside its statement
+            state = st["in"][node.id]
+            for e in _own_exprs(node):
+                calls = [c for c in ast.walk(e) if isinstance(c, ast.Call)]
+                calls.sort(key=lambda c: (getattr(c, "end_lineno", 0), getattr(c, "end_col_offset", 0)))
+                for c in calls:
+                    if c is w:
+                        break
+                    t = canon(c.func)
+                    if t == "self.f.seek":
+                        state = _is_seek_end(repo, ci, c)
+                    elif t.startswith("self.f.") and t[7:] not in ("write", "tell", "flush", "fileno"):
+                        state = False
+                    elif t.startswith("self.") and t.count(".") == 1:
+                        k = _pos_summary(repo, ci, methods, t[5:], summ, 1)
+                        state = True if k == "end" else state if k == "neutral" else False
+            L.ob("C15.R6", F, fn, "`%s` happens with the file position at the end of the capture on every path (a read may have moved it)" % canon(w)[:60],
+                 "position = end of file (seek(0, 2) since the last read / seek)", "end of file" if state else "position unknown: no seek to the end dominates the write",
+                 state, w.lineno)
+    L.floor("C15.R6", "writes to the capture file", nw, 1)
+    # nobody else writes to the capture
+    n_ext = 0
+    for m in repo.tk_modules():
+        for c in [x for x in ast.walk(m.tree) if isinstance(x, ast.Call)]:
+            t = canon(c.func)
+            if t.endswith(".f.write") and t != "self.f.write":
+                n_ext += 1
+                L.ob("C15.R6", m.rel, qualname(c), "the capture file is written only by DATADumpFile's own methods", "self.f.write inside DATADumpFile", t, False, c.lineno)
+    L.ob("C15.R6", F, "DATADumpFile", "writes to a capture file object from outside the class", 0, n_ext, n_ext == 0)
 
 
 def run(L, tier):
@@ -600,3 +848,4 @@ def run(L, tier):
     hl = L.stage(r1_framing, L, repo)
     L.stage(r2_short_read, L, repo)
     L.stage(r3_skip_count, L, repo, hl)
+    L.stage(r6_append_position, L, repo)
